@@ -163,9 +163,13 @@ Proof.
       rewrite (path_prefix_iff (do ++ [clo]) dn cln) by
         (try (destruct do; discriminate); apply Forall_comp_ok_of; assumption).
       symmetry. apply (ancestor_iff_prefix (f_heap s) _ _ I Hrd Hrp (do ++ [clo]) dn oc np Hsd Hwoc NW). }
-    rewrite Hocop, Htest. cbn [orb].
     destruct (node_is_dir_get _ _ Hsd) as (chd & mdd & Hgoc). rewrite Hgoc.
-    destruct (is_ancestor (S (length (f_heap s))) (f_heap s) (v_root (sv_view sv)) oc np); [reflexivity|].
+    rewrite Hocop, Htest. cbn [orb].
+    destruct (is_ancestor (S (length (f_heap s))) (f_heap s) (v_root (sv_view sv)) oc np) eqn:Ea;
+      [rewrite orb_true_r; reflexivity|].
+    assert (Hocnp : Nat.eqb oc np = false).
+    { destruct (Nat.eqb_spec oc np) as [<-|]; [|reflexivity]. cbn [is_ancestor] in Ea. rewrite Nat.eqb_refl in Ea. discriminate Ea. }
+    rewrite Hocnp. cbn [orb].
     rewrite !(admin_may_delete s sv _ _ _ H) by assumption. rewrite Hsd.
     rewrite (admin_kperm s sv np 3 H) by assumption. rewrite (admin_kperm s sv oc 2 H) by assumption.
     rewrite (sh_admin _ _ H). cbn [negb andb]. rewrite !andb_false_r. cbn [andb].
